@@ -97,6 +97,12 @@ def render(spec: T.Dict[str, T.Any], sd: str) -> None:
                   BUILD_TMPL.format(name=q(TOP), proj='', defaults=lit(spec.get('top_defaults', [])),
                                     optnames=lit([o['name'] for o in spec['top']]),
                                     subproject=f"subproject({q(SUB)})" if sub is not None else ''))
+    if spec.get('ct') and spec.get('backend') == 'ninja':
+        # a custom target whose command has to be serialised (env: + capture:) into meson-private/meson_exe_*.dat,
+        # named after a digest that follows the value of option `s`
+        with open(os.path.join(sd, 'meson.build'), 'a') as f:
+            f.write("ct_env = environment()\nct_env.set('C09_S', get_option('s'))\n"
+                    "custom_target('c09cap', output: 'c09cap.txt', command: [find_program('sh'), '-c', 'echo captured'], env: ct_env, capture: true)\n")
     if spec.get('late'):
         # a post-configuration script that fails on demand: a failure *after* coredata.dat and cmd_line.txt were written
         with open(os.path.join(sd, 'meson.build'), 'a') as f:
